@@ -7,6 +7,7 @@ package main
 
 import (
 	"bytes"
+	"context"
 	"flag"
 	"io"
 	"log"
@@ -28,7 +29,7 @@ func suiteRace(args []string) {
 	fs.Parse(args)
 	r := rand.New(rand.NewSource(*seed))
 	rep := &Report{Suite: "race", Seed: *seed, Distribution: map[string]int{}}
-	rep.Rule = "each evaluation is one round: a Server with handlers configured before Serve, 8 concurrent in-memory sessions x 5 requests, Shutdown at a random moment, in parallel with 8 goroutines encoding/decoding overlapping types and (every third round) 3 TLS clients; all rounds differ by their seed"
+	rep.Rule = "each evaluation is one round: a Server with handlers configured before Serve, 8 concurrent in-memory sessions x 5 requests, Shutdown at a random moment, in parallel with 8 goroutines encoding/decoding overlapping types and (every third round) 3 TLS clients, followed by 12 runs of Shutdown with an ended / ending context against 6 sessions that are closing at that moment; all rounds differ by their seed"
 	for round := 0; round < *rounds; round++ {
 		cfg := sessionCfg{rt: true, wt: true, sa: "ok", ra: true, ops: []kmip.Enum{kmip.OPERATION_GET, kmip.OPERATION_CREATE}}
 		ss := newScriptedServer(cfg)
@@ -102,9 +103,74 @@ func suiteRace(args []string) {
 		rep.Evaluations++
 		rep.Nontrivial++
 		rep.Distribution["rounds"]++
+		// Shutdown whose context ends (or has ended) while sessions are open and are closing at that very moment
+		for k := 0; k < 12; k++ {
+			raceShutdownExpiry(rand.New(rand.NewSource(r.Int63())), k)
+			rep.Distribution["shutdown-ctx-expiry"]++
+		}
 	}
 	rep.Samples = append(rep.Samples, map[string]interface{}{"round": "8 sessions x 5 requests + 8 codec goroutines + Shutdown at a random moment"})
 	rep.emit()
+}
+
+// raceShutdownExpiry: idle sessions, then - at once - their peers go away and Shutdown runs with a context that is
+// already cancelled / expires within microseconds: every path of Shutdown that runs after the context ended overlaps
+// with sessions unregistering themselves
+func raceShutdownExpiry(r *rand.Rand, k int) {
+	srv := &kmip.Server{Log: log.New(io.Discard, "", 0)}
+	lis := newMemListener()
+	init := make(chan struct{})
+	served := make(chan error, 1)
+	go func() { served <- srv.Serve(lis, init) }()
+	<-init
+	var conns []*memConn
+	for i := 0; i < 6; i++ {
+		mc := newMemConn("expiry")
+		conns = append(conns, mc)
+		lis.ch <- acceptResult{conn: mc}
+	}
+	for _, mc := range conns {
+		mc.waitUntil(time.Second, func() bool { return mc.readBlocked || mc.localClosed })
+	}
+	var wg sync.WaitGroup
+	start := make(chan struct{})
+	for _, mc := range conns {
+		wg.Add(1)
+		go func(mc *memConn, d time.Duration) {
+			defer wg.Done()
+			<-start
+			time.Sleep(d)
+			mc.peerClose()
+		}(mc, time.Duration(r.Intn(200))*time.Microsecond)
+	}
+	wg.Add(1)
+	go func() {
+		defer wg.Done()
+		<-start
+		var ctx context.Context
+		var cancel context.CancelFunc
+		switch k % 3 {
+		case 0:
+			ctx, cancel = context.WithCancel(context.Background())
+			cancel()
+		case 1:
+			ctx, cancel = context.WithTimeout(context.Background(), time.Duration(1+r.Intn(150))*time.Microsecond)
+		default:
+			ctx, cancel = context.WithCancel(context.Background())
+			go func() { time.Sleep(time.Duration(r.Intn(100)) * time.Microsecond); cancel() }()
+		}
+		srv.Shutdown(ctx)
+		cancel()
+	}()
+	close(start)
+	wg.Wait()
+	for _, mc := range conns {
+		mc.waitUntil(time.Second, func() bool { return mc.localClosed })
+	}
+	select {
+	case <-served:
+	case <-time.After(2 * time.Second):
+	}
 }
 
 func raceTLS() {
